@@ -161,6 +161,10 @@ func (e *c14Env) checkFilterAnswer(r *c14Run, p *c14Proc, cmd string, canDelay b
 		return "malformed"
 	case "died":
 		code, _ := p.finish()
+		r.State.Dead = true
+		if p.timedOut() {
+			return "guard-timeout" // tool guard fired (reported as inconclusive by runProgram), not an observation
+		}
 		r.viol("C14:exchange-truncated:"+cmdClass+":"+pl.Group,
 			fmt.Sprintf("%s: the filter process ended inside the exchange (%s, after %d content bytes; exit code %d) instead of answering with a status\n%s\nfilter stderr: %s",
 				what, a.Why, len(a.Content), code, refs, c14Clip(p.stderr.String(), 400)), nil)
@@ -233,7 +237,7 @@ func (e *c14Env) contentClass(c []byte, pl c14Payload) string {
 		return "pointer"
 	}
 	oid := gitx.Oid(c)
-	for n, o := range map[string][]byte{"L": e.objL, "S": e.objS, "E": e.objE, "M": e.objM} {
+	for n, o := range map[string][]byte{"L": e.objL, "S": e.objS, "S2": e.objS2, "E": e.objE, "M": e.objM} {
 		if gitx.Oid(o) == oid {
 			return "object-" + n
 		}
@@ -264,7 +268,12 @@ func (e *c14Env) runProgram(rootIdx int, ops []c14Op) (r c14Run) {
 	defer p.kill()
 	defer func() {
 		if p.timedOut() {
-			r.Inconcl = "filter-process guard timeout"
+			var names []string
+			for _, o := range ops {
+				names = append(names, e.opString(o))
+			}
+			r.Inconcl = fmt.Sprintf("filter-process guard timeout (%v) in [root %s] %s; stderr: %s", c14Guard, root.Name, strings.Join(names, " ; "), c14Clip(p.stderr.String(), 300))
+			r.Viols = nil
 		}
 	}()
 	bad, died := p.handshake(root.Delay)
@@ -350,7 +359,6 @@ func (e *c14Env) runProgram(rootIdx int, ops []c14Op) (r c14Run) {
 		r.Evals++
 		r.Counters["clause:exit-0-on-eof"]++
 		if p.timedOut() {
-			r.Inconcl = "filter-process guard timeout"
 			return
 		}
 		if len(stray) > 0 {
@@ -396,6 +404,10 @@ func (e *c14Env) runFinish(r *c14Run, p *c14Proc, root c14Root, repo string, rec
 			r.viol("C14:malformed-answer:list:"+c14WhyClass(a.Why), "list_available_blobs answer malformed: "+a.Why, a.Lines)
 		case "died":
 			code, _ := p.finish()
+			r.State.Dead = true
+			if p.timedOut() {
+				break
+			}
 			r.viol("C14:exchange-truncated:list:-", fmt.Sprintf("the filter process ended inside the list_available_blobs exchange (%s, exit %d); stderr: %s", a.Why, code, c14Clip(p.stderr.String(), 400)), nil)
 			r.State.Dead = true
 		case "error":
@@ -480,6 +492,7 @@ type c14Search struct {
 	depth    int // requests outside list phases
 	fullUpTo int // request positions < fullUpTo use the full alphabet (all payloads, all packetisations)
 	allRootsFull bool
+	thorough     bool // thorough tier: larger core alphabet
 }
 
 // run is the vx.RunFunc: point 0 = root, every following point = op index + 1 (0 ends the program).
@@ -565,7 +578,8 @@ func (s *c14Search) enabled(st *c14State) []int {
 			if o.Kind == "clean" {
 				kind = "c"
 			}
-			if o.Path != free || o.Scheme != pl.Schemes[0] || !strings.Contains(pl.CoreFor, kind) {
+			inCore := strings.Contains(pl.CoreFor, kind) || (s.thorough && strings.Contains(pl.CoreFor, strings.ToUpper(kind)))
+			if o.Path != free || o.Scheme != pl.Schemes[0] || !inCore {
 				continue
 			}
 		}
@@ -609,6 +623,7 @@ func (s *c14Search) bfs(deadline time.Time, workers int) (*vx.Stats, c14Info) {
 		res  vx.Result
 		run  c14Run
 	}
+	deadlineHit := false
 	execAll := func(tasks []task) []done {
 		out := make([]done, len(tasks))
 		var wg sync.WaitGroup
@@ -628,6 +643,19 @@ func (s *c14Search) bfs(deadline time.Time, workers int) (*vx.Stats, c14Info) {
 						ops = append(ops, s.ops[o])
 					}
 					run := s.e.runProgram(t.node.root, ops)
+					retried := int64(0)
+					for try := 0; try < 2 && strings.HasPrefix(run.Inconcl, "filter-process guard timeout"); try++ {
+						// a tool guard fired (machine overloaded?): re-execute; a persistent timeout stays inconclusive
+						first := run.Inconcl
+						run = s.e.runProgram(t.node.root, ops)
+						retried++
+						if run.Inconcl == "" {
+							fmt.Printf("note: guard timeout not reproduced on re-execution: %s\n", c14Clip(first, 300))
+						}
+					}
+					if run.Counters != nil && retried > 0 {
+						run.Counters["guard-timeout-reexecutions"] += retried
+					}
 					res := s.toResult(t.node.root, ops, run)
 					res.Points = append(s.points(t.node.root, prog), vx.Point{K: vx.Input, N: len(s.ops) + 1, C: 0})
 					out[i] = done{task: t, res: res, run: run}
@@ -645,6 +673,7 @@ func (s *c14Search) bfs(deadline time.Time, workers int) (*vx.Stats, c14Info) {
 		close(ch)
 		wg.Wait()
 		if stopped {
+			deadlineHit = true
 			st.Exhaustive = false
 			st.CapHit = "deadline"
 		}
@@ -665,6 +694,10 @@ func (s *c14Search) bfs(deadline time.Time, workers int) (*vx.Stats, c14Info) {
 		st.Absorb(res.Points, &res, 0)
 		info.Edges++
 		if d.run.ToolErr != "" || d.run.Inconcl != "" {
+			st.Exhaustive = false
+			if st.CapHit == "" {
+				st.CapHit = "inconclusive execution: " + c14Clip(d.run.Inconcl+d.run.ToolErr, 200)
+			}
 			return c14Node{}, false
 		}
 		k := d.run.State.key()
@@ -696,7 +729,7 @@ func (s *c14Search) bfs(deadline time.Time, workers int) (*vx.Stats, c14Info) {
 		}
 	}
 	complete := true
-	for depth := 0; len(level) > 0 && st.Exhaustive; depth++ {
+	for depth := 0; len(level) > 0 && !deadlineHit; depth++ {
 		lv := map[string]int{"depth": depth, "states_in": len(level)}
 		// (1) finish edges: stay on this level
 		var tasks []task
@@ -713,7 +746,7 @@ func (s *c14Search) bfs(deadline time.Time, workers int) (*vx.Stats, c14Info) {
 				level = append(level, n)
 			}
 		}
-		if !st.Exhaustive {
+		if deadlineHit {
 			complete = false
 			info.Levels = append(info.Levels, lv)
 			break
@@ -737,7 +770,7 @@ func (s *c14Search) bfs(deadline time.Time, workers int) (*vx.Stats, c14Info) {
 		}
 		lv["new_states"] = len(next)
 		info.Levels = append(info.Levels, lv)
-		if !st.Exhaustive {
+		if deadlineHit {
 			complete = false
 		}
 		level = next
@@ -869,9 +902,9 @@ func c14ProgramsScenario(c *vx.Check, extra map[string]interface{}) vx.Part {
 		c14TheEnv = c14NewEnv()
 	}
 	e := c14TheEnv
-	s := &c14Search{e: e, ops: e.buildOps(), depth: 4, fullUpTo: 1}
+	s := &c14Search{e: e, ops: e.buildOps(), depth: 3, fullUpTo: 1}
 	if c.Thorough() {
-		s.depth, s.fullUpTo, s.allRootsFull = 6, 1, true
+		s.depth, s.fullUpTo, s.allRootsFull, s.thorough = 5, 1, true, true
 	}
 	if v := os.Getenv("VERIF_C14_DEPTH"); v != "" {
 		fmt.Sscan(v, &s.depth)
